@@ -19,7 +19,8 @@ RULE = ("stratified + seeded random (configuration, sample) pairs; non-trivial =
 REQUIRED = [f"ref_compared:{nn.label({'test': a, 'estim': b, 'bet': c})}" for a, b, c in nn.COMBOS] + \
            ["equiv_compared", "inverse_checked", "entries_eq", "entries_boundary", "stratum:nondyadic_boundary_neighbourhood", "stratum:early_wins_then_zeros_to_census", "stratum:long_sample",
             "stratum:exact_hit_then_zero_then_nondyadic", "inverse_checked_with_null_mean_outside_0_u",
-            "ref_compared:finite_N_given_as_a_numpy_integer", "predictability_of_the_estimator_values_probed"]
+            "ref_compared:finite_N_given_as_a_numpy_integer", "predictability_of_the_estimator_values_probed", "ref_compared:fixed_bet_above_1_over_u",
+            "ref_compared:negative_betting_product_seen"]
 ASSUMPTIONS = ["eta_j and lambda_j are taken from the real estimator/bet (their ranges are C13's business)",
                "boundary-index conventions of DESIGN.md C12: at the index where the total first exceeds N t either the "
                "product value or 0 is accepted; where mu_j is within the code's tolerances of 0 or u either the product "
@@ -55,6 +56,11 @@ def run_shard(spec, rec):
         if r < 9:
             combo = nn.COMBOS[r]
             cfg = nn.gen_cfg(rng, combo=combo, n_max=rng.choice((6, 12, 12, 30)))
+            if combo[2] == "fixed_bet" and rng.random() < 0.2:
+                # a fixed fraction above 1/u (up to 1/t): the betting product is still DEFINED, and once zeros push the
+                # null conditional mean above 1/lambda a factor - and the product - is negative; the history is min(1, 1/T_j)
+                cfg["kw"]["lam"] = rng.choice((1.25 / cfg["u"], 1.75 / cfg["u"], 1 / cfg["t"]))
+                cfg["overbet"] = True
             st, x = nn.gen_sample(rng, cfg, n_max=30)
             if i % 10 == 0:
                 y = nn.gen_mu_tiny(rng, cfg, nn.cfgN(cfg) if cfg["N"] != "inf" else 30) if rng.random() < 0.5 else nn.gen_near_t(rng, cfg, nn.cfgN(cfg) if cfg["N"] != "inf" else 12)
@@ -151,6 +157,10 @@ def run_case(case, rec):
                         return
         exp = nnref.ref_history(cfg, x, etas=etas, lams=lams)
         rec.count(f"ref_compared:{lab}")
+        if cfg.get("overbet"):
+            rec.count("ref_compared:fixed_bet_above_1_over_u")
+            if any(v < 0 for v in h):
+                rec.count("ref_compared:negative_betting_product_seen")
         if cfg.get("N_repr"):
             rec.count("ref_compared:finite_N_given_as_a_numpy_integer")
         for e in exp:
